@@ -337,7 +337,10 @@ func ruleC12(c *Ctx, r *Report) {
 				}
 			}
 		}
-		required := []string{"ns", "aggregate", "insert", "find", "update", "collection", "delete", "$db", "count", "findAndModify", "findOneAndDelete", "replace", "findOneAndReplace", "findOneAndUpdate", "getIndexes", "countDocuments"}
+		// the verbs the tool declared when the rule was written, plus the remaining commands
+		// that carry a query predicate the tool redacts (distinct, mapReduce): their
+		// collection is "the collection named by the command verb" just the same
+		required := []string{"ns", "aggregate", "insert", "find", "update", "collection", "delete", "$db", "count", "findAndModify", "findOneAndDelete", "replace", "findOneAndReplace", "findOneAndUpdate", "getIndexes", "countDocuments", "distinct", "mapReduce"}
 		have := map[string]bool{}
 		for _, k := range keys {
 			have[k] = true
@@ -414,6 +417,32 @@ func ruleC12(c *Ctx, r *Report) {
 	}
 	if nArms < 2 {
 		r.Bad("C12-R4", "namespace-arms", "-", fmt.Sprintf("only %d Namespace arm(s) store a pseudonym under the flag (2 expected: top-level and sub-document arguments)", nArms))
+	}
+	// under the flag a Namespace-typed argument is never handed on raw when it can be a
+	// document: the {db, coll} form of $merge.into / $out / $lookup.from names collections too
+	for _, s := range p.sinks(p.Zone) {
+		if s.Kind != "set" || !s.Raw {
+			continue
+		}
+		isNs, underFlag, notDoc := false, false, false
+		root := rootOf(resolveLocal(s.Val))
+		for _, a := range s.Atoms {
+			if a.Kind == "tbl" && a.Pol && a.Name == "Namespace" {
+				isNs = true
+			}
+			if a.Kind == "cfg" && a.Pol && a.Name == "redactNamespaces" {
+				underFlag = true
+			}
+			if a.Kind == "typeis" && !a.Pol && isOrderedMapPtr(a.Type) && (rootOf(a.X) == root || a.X == s.Val) {
+				notDoc = true
+			}
+		}
+		if !(isNs && underFlag) {
+			continue
+		}
+		r.Check(notDoc, "C12-R4", fmt.Sprintf("%s:namespace-arm-raw[%s]", s.Fn.Name(), atomsString(s.Atoms)), c.InstrPos(s.Instr),
+			"the raw pass-through of the Namespace arm is reached only by values that are not documents",
+			"under --redactNamespaces a Namespace-typed argument that is a document ({db: ..., coll: ...}) is stored unchanged: the database and collection names in it stay in clear")
 	}
 
 	// ---- R5: one pseudonym function (no second hashing site): shared with C13-R3
